@@ -228,6 +228,8 @@ def py_model(spec):
         return _amr.model
     if spec == 'noop':
         return _noop.model
+    if 'roles_raw' in spec:
+        return Model(roles={p: {} for p in spec['roles_raw']})
     cls = NoOp if spec.get('noop') else Model
     reifs = [(r, py_atom(c), s, t) for r, c, s, t in spec.get('reifs', [])]
     if len(reifs) % 2 == 1:
